@@ -6,10 +6,13 @@ package c14
 // encryptor/{mysql,postgresql}.QueryDataEncryptor, registered in the order of the proxy factories, over a column
 // configuration with searchable / encrypted / plain columns - are driven by the statement workload of the C13 monitor
 // (props/c13.RunRewriters: harvested parser-test statements, grammar-generated statements over the configured tables,
-// search templates). C13 judges what is forwarded; a panic forwards nothing and is recovered there without a verdict.
+// search templates) plus statements DERIVED here from that workload by structural and token edits (deriveStatements).
+// C13 judges what is forwarded; a panic forwards nothing and is recovered there without a verdict.
 // Here every such panic is a verdict: in AcraServer it unwinds into recoverConnection, which drops the client's
 // connection ("can crash a connection handler"). The workload runs in-process on a throw-away ev run (never finished):
 // its C13 verdicts are not C14's business, only the panics (c13.PanicObserver) and the execution counters are used.
+// No crash isolation and no allocation / CPU accounting here (the child-process targets sql.query-encryptor.* and
+// sql.parse.* have those); nesting bombs are therefore not part of the derived statements.
 
 import (
 	"fmt"
@@ -19,6 +22,7 @@ import (
 	"sync"
 
 	"verif/harness/internal/ev"
+	"verif/harness/internal/gen"
 	"verif/harness/internal/props/c13"
 )
 
@@ -27,6 +31,144 @@ var rewriterKinds = map[string]string{"subst": "mysql", "pgsubst": "postgresql"}
 
 type rewriterPanic struct {
 	kind, site, text, stmt string
+}
+
+// rewriterVocab: words spliced in by token edits, on top of the tokens of the workload's own statements.
+var rewriterVocab = []string{"(", ")", ",", "*", "=", "<>", "!=", "<=>", "and", "or", "not", "in", "is", "null", "like", "as", "on", "using", "join", "from", "where", "select", "returning",
+	"default", "values", "set", "union", "exists", "any", "all", ".", "?", "$1", "''", "0", "substr", "substring", "convert", "users", "orders", "t", "logs", "email", "token", "a", "id", "s", "u"}
+
+// deriveOne edits one statement. Classes (stable names, part of the evidence, never of a signature):
+// empty-group (content of one parenthesised group removed: f(), IN (), VALUES (), ( ) sub-select), drop-element (one element
+// of a comma separated list removed), group-swap (one parenthesised group replaced by another group of the same or of
+// another statement), token-edit (1-3 token deletions / duplications / replacements / insertions / swaps), trunc (cut at a token
+// boundary), concat (two statements joined by ; or UNION).
+func deriveOne(g *gen.Rand, corpus []string) (string, string) {
+	base := corpus[g.Intn(len(corpus))]
+	toks := splitTokens(base)
+	if len(toks) == 0 {
+		return base, "valid"
+	}
+	// parenthesised groups at token level (quotes are not interpreted: a parenthesis inside a literal yields a
+	// statement that merely parses differently or not at all)
+	type grp struct{ open, close int }
+	groups := func(tk []string) []grp {
+		var out []grp
+		var stack []int
+		for i, t := range tk {
+			switch t {
+			case "(":
+				stack = append(stack, i)
+			case ")":
+				if len(stack) > 0 {
+					out = append(out, grp{stack[len(stack)-1], i})
+					stack = stack[:len(stack)-1]
+				}
+			}
+		}
+		return out
+	}
+	join := func(parts ...[]string) string {
+		var sb strings.Builder
+		for _, p := range parts {
+			for _, t := range p {
+				sb.WriteString(t)
+			}
+		}
+		return sb.String()
+	}
+	tokenEdit := func() (string, string) {
+		n := 1 + g.Intn(3)
+		word := func() string {
+			if g.Intn(3) == 0 {
+				o := splitTokens(corpus[g.Intn(len(corpus))])
+				if len(o) > 0 {
+					return o[g.Intn(len(o))]
+				}
+			}
+			return rewriterVocab[g.Intn(len(rewriterVocab))]
+		}
+		for k := 0; k < n && len(toks) > 0; k++ {
+			i := g.Intn(len(toks))
+			switch g.Intn(5) {
+			case 0:
+				toks = append(toks[:i:i], toks[i+1:]...)
+			case 1:
+				toks = append(toks[:i+1:i+1], append([]string{" ", toks[i]}, toks[i+1:]...)...)
+			case 2:
+				toks[i] = word()
+			case 3:
+				toks = append(toks[:i:i], append([]string{" " + word() + " "}, toks[i:]...)...)
+			default:
+				j := g.Intn(len(toks))
+				toks[i], toks[j] = toks[j], toks[i]
+			}
+		}
+		return join(toks), "token-edit"
+	}
+	p := g.Intn(100)
+	switch {
+	case p < 28:
+		gs := groups(toks)
+		if len(gs) == 0 {
+			break
+		}
+		x := gs[g.Intn(len(gs))]
+		return join(toks[:x.open+1], toks[x.close:]), "empty-group"
+	case p < 42:
+		// remove one element of a comma separated list: from a comma to the next comma / closing parenthesis of the same depth
+		var commas []int
+		for i, t := range toks {
+			if t == "," {
+				commas = append(commas, i)
+			}
+		}
+		if len(commas) == 0 {
+			break
+		}
+		i := commas[g.Intn(len(commas))]
+		depth, j := 0, i+1
+		for ; j < len(toks); j++ {
+			if toks[j] == "(" {
+				depth++
+			}
+			if toks[j] == ")" {
+				if depth == 0 {
+					break
+				}
+				depth--
+			}
+			if toks[j] == "," && depth == 0 {
+				break
+			}
+		}
+		if g.Intn(2) == 0 {
+			return join(toks[:i], toks[j:]), "drop-element" // the element after the comma goes
+		}
+		return join(toks[:i+1], toks[j:]), "drop-element-keep-comma"
+	case p < 54:
+		gs := groups(toks)
+		if len(gs) == 0 {
+			break
+		}
+		otoks := toks
+		if g.Intn(2) == 0 {
+			otoks = splitTokens(corpus[g.Intn(len(corpus))])
+		}
+		ogs := groups(otoks)
+		if len(ogs) == 0 {
+			break
+		}
+		x, y := gs[g.Intn(len(gs))], ogs[g.Intn(len(ogs))]
+		return join(toks[:x.open], otoks[y.open:y.close+1], toks[x.close+1:]), "group-swap"
+	case p < 90:
+		return tokenEdit()
+	case p < 95:
+		return join(toks[:g.Intn(len(toks))]), "trunc"
+	default:
+		sep := []string{"; ", " union ", " union all "}[g.Intn(3)]
+		return base + sep + corpus[g.Intn(len(corpus))], "concat"
+	}
+	return tokenEdit() // the structural edit drawn does not apply to this statement (no group / no list)
 }
 
 // rewriterLayer runs the rewriter workload and reports `panic target=sql.rewriter.<dialect> fn=<innermost Acra function> class=<panic class>`.
@@ -42,8 +184,7 @@ func rewriterLayer(r *ev.Run, sel string) {
 			return
 		}
 	}
-	nMySQL := intEnv("VERIF_C14_REWRITER_N", r.Pick(3500, 30000))
-	nPG := intEnv("VERIF_C14_REWRITER_N", r.Pick(4000, 30000))
+	nGen := map[string]int{"mysql": intEnv("VERIF_C14_REWRITER_N", r.Pick(3500, 60000)), "postgresql": intEnv("VERIF_C14_REWRITER_N", r.Pick(4000, 60000))}
 
 	var mu sync.Mutex
 	var seen []rewriterPanic
@@ -54,9 +195,32 @@ func rewriterLayer(r *ev.Run, sel string) {
 	}
 	defer func() { c13.PanicObserver = nil }()
 
+	// derived statements: as many as generated ones, a pure function of (seed, tier, dialect) and the generated corpus
+	derivedClass := map[string]string{} // dialect + "\x00" + statement -> construction class (evidence only)
+	derive := func(dialect string, corpus []string) []string {
+		var short []string
+		for _, s := range corpus {
+			if len(s) <= 1500 {
+				short = append(short, s)
+			}
+		}
+		if len(short) == 0 {
+			return nil
+		}
+		g := gen.New(r.Seed, fmt.Sprintf("c14/%s/sql.rewriter.%s/derive", r.Tier, dialect))
+		out := make([]string, 0, nGen[dialect])
+		for i := 0; i < nGen[dialect]; i++ {
+			s, class := deriveOne(g, short)
+			derivedClass[dialect+"\x00"+s] = class
+			r.Count("rewriter_derived_statements:"+class, 1)
+			out = append(out, s)
+		}
+		return out
+	}
+
 	scan := ev.New("C13scan", "exploration") // throw-away: never finished, nothing of it is written
 	scan.Seed, scan.Tier = r.Seed, r.Tier
-	if err := c13.RunRewriters(scan, nMySQL, nPG); err != nil {
+	if err := c13.RunRewriters(scan, nGen["mysql"], nGen["postgresql"], derive); err != nil {
 		r.Violation("infrastructure: rewriter workload could not be built", err.Error())
 		return
 	}
@@ -87,47 +251,55 @@ func rewriterLayer(r *ev.Run, sel string) {
 		panics++
 		tname := "sql.rewriter." + dialect
 		class := panicClass(p.text)
-		r.Distinct(tname + "|panic:" + p.site + ":" + class)
+		construction := "workload-of-C13"
+		if c, ok := derivedClass[dialect+"\x00"+p.stmt]; ok {
+			construction = "derived:" + c
+		}
+		r.Distinct(tname + "|panic:" + p.site + ":" + class + "|" + construction)
 		det := map[string]interface{}{"target": tname, "seed": r.Seed, "tier": r.Tier, "panic": p.text, "statement": p.stmt, "statement_hex": ev.FullHex(capBytes([]byte(p.stmt), 1<<16)),
-			"driven": "OnQuery of HashQuery + QueryDataEncryptor (" + dialect + ") registered on an ArrayQueryObservableManager as the proxy factory does; column configuration of props/c13 (users.email, orders.token, t.a searchable)",
-			"replay": "VERIF_SEED=" + fmt.Sprint(r.Seed) + " VERIF_C14_TARGETS=sql.rewriter ./check C14 " + r.Tier}
-		if p.site == "unknown" || strings.HasPrefix(p.site, "unknown") {
+			"construction_class": construction,
+			"driven":             "OnQuery of HashQuery + QueryDataEncryptor (" + dialect + ") registered on an ArrayQueryObservableManager as the proxy factory does; column configuration of props/c13 (users.email, orders.token, t.a searchable)",
+			"replay":             "VERIF_SEED=" + fmt.Sprint(r.Seed) + " VERIF_C14_TARGETS=sql.rewriter ./check C14 " + r.Tier}
+		if strings.HasPrefix(p.site, "unknown") {
 			r.Violation("infrastructure: panic without an Acra frame target="+tname+" class="+class, det)
 			continue
 		}
 		r.Violation(fmt.Sprintf("panic target=%s fn=%s class=%s", tname, p.site, class), det)
-		r.SampleN("s:sql:rewriter-panic:"+p.site, 1, map[string]interface{}{"target": tname, "outcome": "panic:" + p.site + ":" + class, "statement": p.stmt})
+		r.SampleN("s:sql:rewriter-panic:"+p.site, 1, map[string]interface{}{"target": tname, "outcome": "panic:" + p.site + ":" + class, "construction_class": construction, "statement": p.stmt})
 	}
 
 	// counters: statements for which the rewriter chain was entered and came back (with or without a rewrite), per dialect
-	for dialect, pfx := range map[string]string{"mysql": "mysql", "postgresql": "pg"} {
-		back := scan.Counter(pfx+"_onquery_error_statement_not_rewritten") + scan.Counter(pfx+"_onquery_left_statement_unchanged") + scan.Counter(pfx+"_rewrite_judged")
+	for _, dialect := range []string{"mysql", "postgresql"} {
+		pfx := map[string]string{"mysql": "mysql", "postgresql": "pg"}[dialect]
+		errs := scan.Counter(pfx + "_onquery_error_statement_not_rewritten")
+		back := errs + scan.Counter(pfx+"_onquery_left_statement_unchanged") + scan.Counter(pfx+"_rewrite_judged")
 		tname := "sql.rewriter." + dialect
 		r.Count("rewriter_onquery_returned:"+dialect, back)
 		r.Count("rewriter_statements_rewritten:"+dialect, scan.Counter(pfx+"_rewrite_judged"))
 		r.Count("rewriter_search_rewrites:"+dialect, scan.Counter(pfx+"_search_rewrites"))
-		r.Count("rewriter_onquery_error:"+dialect, scan.Counter(pfx+"_onquery_error_statement_not_rewritten"))
-		r.Count("ok", back-scan.Counter(pfx+"_onquery_error_statement_not_rewritten"))
-		r.Count("error", scan.Counter(pfx+"_onquery_error_statement_not_rewritten"))
+		r.Count("rewriter_onquery_error:"+dialect, errs)
+		r.Count("ok", back-errs)
+		r.Count("error", errs)
 		r.Count("inputs:sql", back)
 		r.Cases(int(back))
 		r.SetAdd("targets", tname)
 		r.Distinct(tname + "|ok|rewritten")
 		r.Distinct(tname + "|ok|unchanged")
-		if scan.Counter(pfx+"_onquery_error_statement_not_rewritten") > 0 {
+		if errs > 0 {
 			r.Distinct(tname + "|err|onquery-error")
 		}
 	}
+	r.Count("rewriter_statements_rejected_by_a_parser", scan.Counter("rejected_by_parser:subst")+scan.Counter("pg_query_rejected_statement"))
 	r.Count("panic", panics)
 	r.Count("rewriter_panics", panics)
 	r.Cases(int(panics))
 	// non-vacuity: the chain must have been run over thousands of statements and must actually have rewritten many of them
-	r.RequireAtLeast("rewriter_onquery_returned:mysql", int64(nMySQL)*6/10)
-	r.RequireAtLeast("rewriter_onquery_returned:postgresql", int64(nPG)*6/10)
-	r.RequireAtLeast("rewriter_statements_rewritten:mysql", int64(nMySQL)/8)
-	r.RequireAtLeast("rewriter_statements_rewritten:postgresql", int64(nPG)/8)
-	r.RequireAtLeast("rewriter_search_rewrites:mysql", int64(nMySQL)/20)
-	r.RequireAtLeast("rewriter_search_rewrites:postgresql", int64(nPG)/80)
+	r.RequireAtLeast("rewriter_onquery_returned:mysql", int64(nGen["mysql"])*6/10)
+	r.RequireAtLeast("rewriter_onquery_returned:postgresql", int64(nGen["postgresql"])*6/10)
+	r.RequireAtLeast("rewriter_statements_rewritten:mysql", int64(nGen["mysql"])/8)
+	r.RequireAtLeast("rewriter_statements_rewritten:postgresql", int64(nGen["postgresql"])/8)
+	r.RequireAtLeast("rewriter_search_rewrites:mysql", int64(nGen["mysql"])/20)
+	r.RequireAtLeast("rewriter_search_rewrites:postgresql", int64(nGen["postgresql"])/80)
 	if os.Getenv("VERIF_C14_VERBOSE") != "" {
 		fmt.Fprintf(os.Stderr, "c14: sql.rewriter mysql back=%d pg back=%d panics=%d\n", r.Counter("rewriter_onquery_returned:mysql"), r.Counter("rewriter_onquery_returned:postgresql"), panics)
 	}
